@@ -4,25 +4,33 @@ import json, os
 HERE = os.path.dirname(os.path.abspath(__file__))
 VERIF = os.path.dirname(HERE)
 
-CLAIMED = {
- "C19": dict(
-   text="Lean 4 theorems over a checked-C model of printbuf.c: for every buffer state satisfying the representation invariant and every "
-        "request (any size/offset/fill/format output), memappend, the memappend_fast macro, memset, sprintbuf and reset do not fault (no int "
-        "overflow, no access outside the allocation), keep the invariant, refine the byte-array specification (ByteBuf), leave appended text "
-        "NUL-terminated inside the allocation, and refuse with EFBIG leaving the buffer unchanged exactly in the INT_MAX band; lifted by induction "
-        "to every finite history (run_refines). The model is tied to the code by constants regenerated from printbuf.c on every run and by a "
-        "differential run of model, spec and the ASan/UBSan-built implementation on generated histories.",
-   note="Trusted: Lean kernel + propext/Classical.choice/Quot.sound; tools/extract; the differential harness; glibc vsnprintf/realloc; allocation "
-        "success (failure is C08). The model is hand-written: theorems are about the model, the correspondence run is testing.",
-   technique="Lean 4 proof (invariant + refinement, induction over histories) + model/implementation correspondence run",
-   design="6/C19"),
-}
+CLAIMED = {}   # entries come from tools/props/cXX.py: MANIFEST = dict(text=, note=, technique=, design=)
+
+def load_claimed():
+    """a property is claimed when tools/props/cXX.py exists and defines MANIFEST = dict(text, note, technique, design)"""
+    import importlib, sys, glob
+    sys.path.insert(0, HERE)
+    res = dict(CLAIMED)
+    for f in sorted(glob.glob(os.path.join(HERE, "props", "c*.py"))):
+        pid = os.path.basename(f)[:-3].upper()
+        try:
+            mod = importlib.import_module("props." + pid.lower())
+        except Exception as e:
+            print("manifest_gen: cannot import %s: %r" % (f, e))
+            continue
+        m = getattr(mod, "MANIFEST", None)
+        if m:
+            res[pid] = m
+    return res
+
 
 REASONS_PENDING = "not claimed yet in this revision of /verif: model and theorems for this property are still being built (see DESIGN.md section 10)"
 
 def main():
+    global CLAIMED
     props = [json.loads(l) for l in open(os.path.join(VERIF, "properties.jsonl"))]
     checks, na = [], []
+    CLAIMED = load_claimed()
     for p in props:
         pid = p["id"]
         if pid in CLAIMED:
